@@ -9,7 +9,8 @@ import subprocess
 
 from units.C14.cex import build_erg
 
-CHARS = ['a', 'Z', ' ', '"', '\\', '\n', '\r', '\0', "'", '/', 'é', '😀', '{', '}', ':', ',', '\x01', '\x1f', '\x7f', 'b', 'u', '0']
+CHARS = ['a', 'Z', ' ', '"', '\\', '\n', '\r', '\0', "'", '/', 'é', '😀', '{', '}', ':', ',', '\x01', '\x1f', '\x7f', 'b', 'u', '0',
+         '\x80', '\xa0', '\u07ff', '\u0800', '\u2028', '\u2029', '\ufeff', '\ufffd', '\uffff', '\U00010000', '\U0010ffff']
 
 
 def erg_str(s):
@@ -126,6 +127,11 @@ def explore(run, n_modules=None):
         lines.append('p = %s' % text)
         lines.append('.vp = p')
         binds.append(('vp', val, 'p = ' + text))
+        # private bindings (no member of the object) at random places: first, between two members, last
+        for k in range(rng.randint(0, 2)):
+            where = rng.choice(['first', 'middle', 'last'])
+            pos = 0 if where == 'first' else (len(lines) if where == 'last' else rng.randint(0, len(lines)))
+            lines.insert(pos, 'h%d = %d' % (k, k))
         path = os.path.join(work, 'm%d.er' % m)
         with open(path, 'w', encoding='utf-8') as f:
             f.write('\n'.join(lines) + '\n')
